@@ -89,6 +89,10 @@ def call(f, *a, **k):
                 return r
         return f(*a, **k)
     if tf is types.MethodType:
+        if EXTRA and f in EXTRA:
+            r = EXTRA[f](*a, **k)
+            if r is not NotImplemented:
+                return r
         return f(*a, **k)
     if tf is type:
         h = _TYPE_HOOKS.get(f)
@@ -210,7 +214,7 @@ def _h_min(a, k):
     if k:
         return NotImplemented
     xs = a if len(a) > 1 else list(a[0])
-    if any(type(x) is SymInt for x in xs):
+    if any(type(x) is SymInt or type(x).__name__ == 'SymRat' for x in xs):
         used('min/max')
         r = xs[0]
         for x in xs[1:]:
@@ -223,7 +227,7 @@ def _h_max(a, k):
     if k:
         return NotImplemented
     xs = a if len(a) > 1 else list(a[0])
-    if any(type(x) is SymInt for x in xs):
+    if any(type(x) is SymInt or type(x).__name__ == 'SymRat' for x in xs):
         used('min/max')
         r = xs[0]
         for x in xs[1:]:
